@@ -560,8 +560,22 @@ impl JpegBitstreamReconstructor<'_, '_, '_> {
                     .map(|c| [1u32, 2, 1, 2][jpeg_upsampling_ycbcr[c.comp_idx as usize] as usize])
                     .collect::<Vec<_>>();
 
-                let mut max_hsample = hsamples.iter().copied().max().unwrap().trailing_zeros();
-                let mut max_vsample = vsamples.iter().copied().max().unwrap().trailing_zeros();
+                // MCU dimension is determined by the sampling factors of all components in the
+                // frame, not only the ones in this scan.
+                let num_channels = self.header.components.len().min(3);
+                let frame_upsampling = &jpeg_upsampling_ycbcr[..num_channels];
+                let mut max_hsample = frame_upsampling
+                    .iter()
+                    .map(|&v| [1u32, 2, 2, 1][v as usize])
+                    .max()
+                    .unwrap()
+                    .trailing_zeros();
+                let mut max_vsample = frame_upsampling
+                    .iter()
+                    .map(|&v| [1u32, 2, 1, 2][v as usize])
+                    .max()
+                    .unwrap()
+                    .trailing_zeros();
                 let mut w8 = (frame_header.width.div_ceil(8) + max_hsample) >> max_hsample;
                 let mut h8 = (frame_header.height.div_ceil(8) + max_vsample) >> max_vsample;
 
